@@ -107,6 +107,15 @@ def main(argv):
             for f in fixed_f + open_f:
                 rp = os.path.join(core.VERIF, f["replay"])
                 r = json.load(open(rp))
+                if r.get("flavor") not in ("sync", "async", "any", None):
+                    # a replay with its own runner (e.g. the pure API)
+                    probs = props.REPLAY_RUNNERS[r["flavor"]](r["case"])
+                    if f in fixed_f and probs:
+                        violations.append({"kind": "regression-of-fixed-finding", "finding": f["id"], "flavor": r["flavor"],
+                                           "case": r["case"], "problems": probs[:3]})
+                    if f in open_f and probs:
+                        known_hits[f["id"]] = f
+                    continue
                 for flavor in ([r["flavor"]] if r.get("flavor") in ("sync", "async") else spec["flavors"]):
                     st, obs = core._impl_worker((flavor, r["case"], 20))
                     probs = props.run_oracles(prop, r["case"], st, obs, flavor, replay=True)
@@ -189,8 +198,13 @@ def main(argv):
                         samples.append({"query": qfn.__name__, **smp})
                 for t in qr["ties"][:50]:
                     tie_breaks.append(("query", {"id": qfn.__name__, "query": t}, t))
-                for f in qr["fails"][:50]:
-                    oracle_fails.append(("query", {"id": qfn.__name__, "query": f}, [f]))
+                for f in qr["fails"][:200]:
+                    kf = next((k for k in open_f if classify(k, f, f.get("case") or {}, f.get("flavor") or "any")), None)
+                    if kf is not None:
+                        known_hits[kf["id"]] = kf
+                        stats["known_finding_cases"] += 1
+                    else:
+                        oracle_fails.append(("query", {"id": qfn.__name__, "query": f}, [f]))
     finally:
         core.close_pool()
 
